@@ -88,17 +88,12 @@ mod verif_k4 {
         std::mem::forget(r);
     }
 
-    //@ harness k4_json_ok_wire property=C12 class=bounded tier=thorough :: BOUNDED (one fixed value `true`): HttpResponseOk(v).to_result() is Ok with status 200 and content-type application/json
-    #[kani::proof]
-    #[kani::unwind(18)]
-    #[kani::stub(std::fmt::format, fmt_stub)]
-    fn k4_json_ok_wire() {
-        let r = HttpResponseOk(true).to_result();
+    fn check_json_wire(r: HttpHandlerResult, want: u16) {
         match r {
             Ok(rsp) => {
-                assert!(rsp.status().as_u16() == 200);
+                assert!(rsp.status().as_u16() == want);
                 match rsp.headers().get(http::header::CONTENT_TYPE) {
-                    Some(v) => assert!(v.as_bytes().len() == 16),
+                    Some(v) => assert!(v.as_bytes().len() == 16), // "application/json"
                     None => assert!(false),
                 }
                 std::mem::forget(rsp);
@@ -106,4 +101,22 @@ mod verif_k4 {
             Err(e) => { std::mem::forget(e); assert!(false); }
         }
     }
+
+    //@ harness k4_json_ok_wire property=C12 class=bounded :: BOUNDED (one fixed value `true`): HttpResponseOk(v).to_result() is Ok with status 200 and content-type application/json
+    #[kani::proof]
+    #[kani::unwind(18)]
+    #[kani::stub(std::fmt::format, fmt_stub)]
+    fn k4_json_ok_wire() { check_json_wire(HttpResponseOk(true).to_result(), 200); }
+
+    //@ harness k4_json_created_wire property=C12 class=bounded :: BOUNDED (one fixed value `true`): HttpResponseCreated(v).to_result() is Ok with status 201 and content-type application/json
+    #[kani::proof]
+    #[kani::unwind(18)]
+    #[kani::stub(std::fmt::format, fmt_stub)]
+    fn k4_json_created_wire() { check_json_wire(HttpResponseCreated(true).to_result(), 201); }
+
+    //@ harness k4_json_accepted_wire property=C12 class=bounded :: BOUNDED (one fixed value `true`): HttpResponseAccepted(v).to_result() is Ok with status 202 and content-type application/json
+    #[kani::proof]
+    #[kani::unwind(18)]
+    #[kani::stub(std::fmt::format, fmt_stub)]
+    fn k4_json_accepted_wire() { check_json_wire(HttpResponseAccepted(true).to_result(), 202); }
 }
